@@ -123,9 +123,11 @@ func (st TrackerStatus) String() string {
 		return v
 	}
 
-	// other filters
+	// other filters: list the single statuses they are made of. The
+	// composite names ("error", "queued") would add statuses which are
+	// not part of st when it only overlaps with them.
 	for k, v := range trackerStatusString {
-		if st&k > 0 {
+		if k&(k-1) == 0 && st&k > 0 {
 			values = append(values, v)
 		}
 	}
